@@ -36,11 +36,16 @@ type memoKey struct {
 
 // linearize returns a witness order (indices into h) or ok=false. Pending operations are never needed by the
 // harness's histories (a run that does not finish is reported as a deadlock), so they are left out of the order.
-func linearize(h []Ev, m Model) ([]int, bool) {
+//
+// The search is exponential in the worst case: it gives up after searchBudget nodes (inconclusive = true); an
+// inconclusive history is never reported as a violation.
+func linearize(h []Ev, m Model) (w []int, ok bool, inconclusive bool) {
 	n := len(h)
 	if n > 62 {
-		return nil, false
+		return nil, false, true
 	}
+
+	nodes := 0
 
 	var all uint64
 
@@ -58,6 +63,11 @@ func linearize(h []Ev, m Model) ([]int, bool) {
 	dfs = func(done uint64, s State) bool {
 		if done == all {
 			return true
+		}
+
+		nodes++
+		if nodes > searchBudget {
+			return false
 		}
 
 		k := memoKey{done, s.Key()}
@@ -97,17 +107,21 @@ func linearize(h []Ev, m Model) ([]int, bool) {
 			order = order[:len(order)-1]
 		}
 
-		failed[k] = true
+		if nodes <= searchBudget {
+			failed[k] = true
+		}
 
 		return false
 	}
 
 	if dfs(0, m.Init()) {
-		return order, true
+		return order, true, false
 	}
 
-	return nil, false
+	return nil, false, nodes > searchBudget
 }
+
+const searchBudget = 300000
 
 // sortHistory orders a history by invocation time (ids = positions afterwards).
 func sortHistory(h []Ev) {
